@@ -54,6 +54,7 @@ package netpoll
 //@ ghost global acUntrack bool
 //@ ghost global acStored bool
 //@ ghost global acConnect bool
+//@ ghost global acActive bool
 
 // a connection being set up is not yet visible to any other goroutine or callback (it becomes visible when onPrepare registers it)
 //@ ghost field connection.setup bool threadlocal
@@ -78,14 +79,25 @@ package netpoll
 //@   requires s != nil && conn != nil && (typeis(conn, *netFD) ==> conn#val != 0)
 //@   note global invariants (callback list, poller pool) hold whenever no manager/AddCloseCallback call is in progress on this goroutine; they are proved where they are changed (C05, C18)
 //@   assume cblist() && mbase(pollmanager) && (pollmanager.status == 2 ==> mgood(pollmanager)) && pollmanager.status != 1
-//@   threadlocal !acUntrack && !acStored && !acConnect
+//@   threadlocal !acUntrack && !acStored && !acConnect && !acActive
 //@   ensures acStored ==> acUntrack
 //@   ensures acConnect ==> acStored
-//@   modifies world, acUntrack, acStored, acConnect, connection.setup, prepDone, prepOK, prepRegistered, runFailed, FDOperator.owned, locker.sealed_heldP, locker.heldP, locker.heldC, operatorCache.ocl, ocBase, cbRuns
+//@   modifies world, acUntrack, acStored, acConnect, acActive, connection.setup, prepDone, prepOK, prepRegistered, runFailed, FDOperator.owned, locker.sealed_heldP, locker.heldP, locker.heldC, operatorCache.ocl, ocBase, cbRuns
 //@   ghost before call (*connection).init#1: assert !wasalloc(arg0); arg0.setup = true
 //@   ghost before call (*connection).AddCloseCallback#1: acUntrack = true
-//@   ghost before call (*sync.Map).Store#1: assert acUntrack; acStored = true
+//@   ghost after call (*connection).IsActive#1: acActive = result
+//@   ghost before call (*sync.Map).Store#1: assert acUntrack && acActive; acStored = true
 //@   ghost before call (*connection).onConnect#1: assert acStored; acConnect = true
+
+// idle means: no handler holds the processing lock (seen free) and both buffers are empty
+//@ ghost global idleUnlocked bool
+//@ func (*connection).isIdle
+//@   property C13
+//@   requires connok(c)
+//@   ensures yes ==> idleUnlocked
+//@   modifies idleUnlocked
+//@   ghost at entry: idleUnlocked = false
+//@   ghost after call (*locker).isUnlock#1: idleUnlocked = result
 
 // the per-entry callback of Shutdown: an idle (or non-graceful) connection is closed, a busy one is counted and left alone; iteration never stops early
 //@ ghost global shClosed int
@@ -96,7 +108,8 @@ package netpoll
 //@   requires activeConn >= 0
 //@   ensures result
 //@   ensures (activeConn == old(activeConn) && shClosed == old(shClosed) + 1) || (activeConn == old(activeConn) + 1 && shClosed == old(shClosed))
-//@   modifies world, key:cell:int, shClosed
+//@   modifies world, key:cell:int, shClosed, idleUnlocked
+//@   ghost before call invoke.Close#1: assert !typeis(value, *connection) || idleUnlocked
 //@   ghost before call invoke.Close#1: shClosed = shClosed + 1
 
 // Shutdown: stops accepting first (detach the listener's slot, close the listener), then polls; nil only right after a sweep that counted no busy
@@ -132,7 +145,7 @@ package netpoll
 //@   threadlocal !orDetach && !orRetry && !orQuit
 //@   ensures orRetry ==> orDetach
 //@   ensures orQuit ==> orDetach && result != nil
-//@   modifies world, orDetach, orRetry, orQuit, acUntrack, acStored, acConnect, connection.setup, prepDone, prepOK, prepRegistered, runFailed, FDOperator.owned, locker.sealed_heldP, locker.heldP, locker.heldC, operatorCache.ocl, ocBase, cbRuns
+//@   modifies world, orDetach, orRetry, orQuit, acUntrack, acStored, acConnect, acActive, connection.setup, prepDone, prepOK, prepRegistered, runFailed, FDOperator.owned, locker.sealed_heldP, locker.heldP, locker.heldC, operatorCache.ocl, ocBase, cbRuns
 //@   ghost before call (*FDOperator).Control#1: orDetach = true
 //@   ghost before call dyn#1: assert orDetach; orRetry = true
 //@   ghost before call (*FDOperator).Control#2: orDetach = true
@@ -145,7 +158,7 @@ package netpoll
 //@   requires s != nil && s.ln != nil && s.operator.poll != nil && s.operator.detached >= 0 && s.operator.detached < 2147483640
 //@   threadlocal !orReReg
 //@   ensures orReReg
-//@   modifies world, orReReg, acUntrack, acStored, acConnect, connection.setup, prepDone, prepOK, prepRegistered, runFailed, FDOperator.owned, locker.sealed_heldP, locker.heldP, locker.heldC, operatorCache.ocl, ocBase, cbRuns
+//@   modifies world, orReReg, acUntrack, acStored, acConnect, acActive, connection.setup, prepDone, prepOK, prepRegistered, runFailed, FDOperator.owned, locker.sealed_heldP, locker.heldP, locker.heldC, operatorCache.ocl, ocBase, cbRuns
 //@   loop 1 invariant 0 <= retryTimeIndex && retryTimeIndex < 7 && !orReReg && s.ln != nil && s.operator.poll != nil && s.operator.detached >= 0 && s.operator.detached < 2147483640
 //@   ghost before call (*FDOperator).Control#1: assert arg1 == 1; orReReg = true
 
@@ -310,3 +323,17 @@ package netpoll
 //@   ghost after call (*netFD).Close#1: dlClosed = dlClosed + 1
 //@   ghost before call newTCPConnection#1: dlKept = 1
 //@ ghost global dlKept int
+
+// Shutdown: takes the server out of the loop exactly once (a second Shutdown finds none), lets Serve return (quit) and only then
+// runs the server's graceful close; its result is the server's
+//@ ghost global shQuit bool
+//@ func (*eventLoop).Shutdown
+//@   property C13
+//@   requires ctx != nil && evl.stop != nil
+//@   requires evl.svr != nil ==> evl.svr.ln != nil && evl.svr.operator.poll != nil && evl.svr.operator.detached >= 0 && evl.svr.operator.detached < 2147483000
+//@   threadlocal !shQuit && !shDetached && !shLnClosed && !shSwept
+//@   ensures old(evl.svr) == nil ==> result == nil && !shSwept
+//@   ensures old(evl.svr) != nil ==> shQuit && shSwept
+//@   modifies world, evl.svr, shQuit, shDetached, shLnClosed, shSwept, key:cell:int
+//@   ghost before call (*eventLoop).quit#1: shQuit = true
+//@   ghost before call (*server).Close#1: assert shQuit
